@@ -79,12 +79,20 @@ Lookup(b, name) ==
   LET S == {i \in 1..Len(b) : b[i][1] = name} IN b[SetMax(S)][2]
 Bound(b) == {b[i][1] : i \in 1..Len(b)}
 
+\* The match expressions of the model sit in a program whose globals x, y, u are
+\* preset to the strings gx, gy, gu.  A name in a body denotes the binding made
+\* by the alternative that matched, if that alternative binds it, and otherwise
+\* the enclosing variable: names bound only by an alternative (or case) that
+\* did NOT match must not be visible.
+Global(name) == Str(CASE name = "x" -> "gx" [] name = "y" -> "gy" [] OTHER -> "gu")
+Resolve(b, name) == IF name \in Bound(b) THEN Lookup(b, name) ELSE Global(name)
+
 \* ---- bodies.  A case is [alts, body]; a body is [kind, arg]:
 \*   const:     `'c<k>'`          value the string c<k>
-\*   name:      `<arg>`           value of the bound name
+\*   name:      `<arg>`           value of the name (binding of the matching alternative, else the global)
 \*   marker:    `m('k<k>')`       prints "m k<k>", value the string k<k>
 \*   block:     `{ m('k<k>') }`   prints "m k<k>", value null
-\*   blockname: `{ m(<arg>) }`    prints "m <value of arg>", value null
+\*   blockname: `{ m(<arg>) }`    prints "m <value of the name>", value null
 Body(kind, arg) == [kind |-> kind, arg |-> arg]
 IsBlock(body) == body.kind \in {"block", "blockname"}
 KStr(k) == Str(CASE k = 1 -> "k1" [] k = 2 -> "k2" [] k = 3 -> "k3" [] OTHER -> "k4")
@@ -93,10 +101,10 @@ CStr(k) == Str(CASE k = 1 -> "c1" [] k = 2 -> "c2" [] k = 3 -> "c3" [] OTHER -> 
 \* value and marker trace of body k evaluated under bindings b
 BodyVal(body, k, b) ==
   CASE body.kind = "const"     -> [val |-> CStr(k), trace |-> <<>>]
-    [] body.kind = "name"      -> [val |-> Lookup(b, body.arg), trace |-> <<>>]
+    [] body.kind = "name"      -> [val |-> Resolve(b, body.arg), trace |-> <<>>]
     [] body.kind = "marker"    -> [val |-> KStr(k), trace |-> <<KStr(k)>>]
     [] body.kind = "block"     -> [val |-> Null, trace |-> <<KStr(k)>>]
-    [] body.kind = "blockname" -> [val |-> Null, trace |-> <<Lookup(b, body.arg)>>]
+    [] body.kind = "blockname" -> [val |-> Null, trace |-> <<Resolve(b, body.arg)>>]
 
 \* ---- the match expression.  Outcome:
 \*   [cls: "ok" | "runtime", sel: selected case (0 none), alt, val, trace, blk]
